@@ -1225,6 +1225,9 @@ func (v *variantCallPacket) UnmarshalBinary(data []byte) (err error) {
 	}
 	p = p[v.TransactionID.Size():]
 
+	// The command object is optional. Without it, drop the one of the
+	// constructor, so that Size() is the number of bytes decoded.
+	v.CommandObject = nil
 	if len(p) > 0 {
 		if v.CommandObject, err = amf0.Discovery(p); err != nil {
 			return oe.WithMessage(err, "discovery command object")
